@@ -1,6 +1,7 @@
 """C01 — every template source compiles or fails with a template syntax error.
 
-proof : Properties/C01.v (code-generation half: whatever gen accepts satisfies CPython's
+proof : Properties/C01parse.v (statement parser model: parse_total_no_internal, internal_iff_not_wf,
+        linear fuel for the statement loops), Properties/C01lex.v (lexer totality), Properties/C01.v (code-generation half: whatever gen accepts satisfies CPython's
         acceptance rules, for all statement trees, under NoAlias; the alias refutation) and
         the lexer totality lemmas of the lexer development when present (Properties/C01lex.v).
 tie   : K-gen  extracted PyWf.gens/facts == the real compiler: outcome (ok / TemplateSyntaxError)
@@ -405,6 +406,9 @@ PROBES = [
     ("default", "{{ f(\ufb01=1, fi=2) }}"),
     ("default", "{% set \u00b5 = 1 %}{% set \u03bc = 2 %}"),
     ("default", "{% macro m(a=1, b) %}{% endmacro %}"),
+    ("default", "{{ f(__debug__=1) }}"), ("default", "{% call(x) f(__debug__=1, class=2) %}{% endcall %}"),
+    ("default", "{{ a[:,:] }}"), ("default", "{{ a[1:2,3] }}"), ("default", "{{ a[::2, 1][0] }}"),
+    ("default", "{% set __debug__ = 1 %}{% macro m(__debug__, None_=1) %}{{ __debug__ }}{% endmacro %}{{ m(__debug__=2) }}"),
     ("default", "{% set b | default(x) %}a{% endset %}"), ("default", "{% set b | replace(x, y) | default(z) %}{% endset %}"),
     ("default", "{% filter replace(x, y) %}{% endfilter %}"), ("default", "{% call(a) f(x)|g(y) %}{{ z }}{% endcall %}"),
     ("default", "{% for a in b if c|d(e) %}{% else %}{{ f }}{% endfor %}"),
@@ -464,9 +468,19 @@ def oracle(ctx):
                 work.append(("line", "# if " + body + "\n# endif"))
                 n_uni += 2
     ctx.count("oracle_unicode_expressions", n_uni)
+    # (v) subscript / call-argument contents over a punctuation-heavy alphabet, exhaustively
+    SUB = [":", ",", "1", "a", "(", ")", "*", "=", "__debug__", "None", "class", " "]
+    n_sub = 0
+    for n in range(1, ctx.size(3, 5) + 1):
+        for tup in itertools.product(SUB, repeat=n):
+            body = "".join(tup)
+            work.append(("default", "{{ a[" + body + "] }}"))
+            work.append(("sandbox", "{{ f(" + body + ") }}"))
+            n_sub += 2
+    ctx.count("oracle_subscript_and_call_contents", n_sub)
     work += PROBES
     ctx.count("oracle_exhaustive", n_exh)
-    ctx.count("oracle_generated_and_mutated", len(work) - n_exh - len(PROBES) - n_uni)
+    ctx.count("oracle_generated_and_mutated", len(work) - n_exh - len(PROBES) - n_uni)  # (v) counted separately below
     ctx.count("oracle_probes", len(PROBES))
     chunks = [work[i:i + 400] for i in range(0, len(work), 400)]
     t0 = time.time()
@@ -502,6 +516,12 @@ def run(ctx):
         ctx.proof("C01lex")
     else:
         ctx.notes.append("lexer totality lemmas (Properties/C01lex.v) not present in this build")
+    # parser half: statement-level parser model (expression family) — no internal error is reachable on
+    # well-formed token streams, errors carry a token line; tied by K-parse on real token streams
+    if os.path.exists(os.path.join(lib.THEORIES, "Properties", "C01parse.v")):
+        ctx.proof("C01parse")
+        from . import c01parse
+        c01parse.run_parse_tie(ctx)
     # regenerated facts: every raise / assert site on the loading path (T2-style translator)
     import sys
     sys.path.insert(0, os.path.join(lib.ROOT, "gen"))
